@@ -5,6 +5,8 @@ CONSTANTS
   MaxW = 8
   FreshOnly = FALSE
   Ops = {"mset", "mget"}
+  Shape <- ShapeAny
+  LeafSet = {}
   AutoSimp = FALSE
   MapSpan = 6
   MapSrc = {1, 2}
